@@ -341,6 +341,23 @@ def _dest_is_rsp(x):
     return bool(x.args) and x.args[-1].replace(" ", "") in ("%rsp", "%esp", "%sp")
 
 
+def _r10_callee(ins, i):
+    """unhooked trees: the symbol chibicc loaded into rax before `mov %rax, %r10; ...; call *%r10`, else None"""
+    j = i - 1
+    while j >= 0 and not (ins[j].op == "mov" and [a.replace(" ", "") for a in ins[j].args] == ["%rax", "%r10"]):
+        if ins[j].op in ("label", "call") or ins[j].op in JCC or ins[j].op == "jmp":
+            return None
+        j -= 1
+    j -= 1
+    while j >= 0 and ins[j].op in ("pop", "movsd", "movss", "V") and not (ins[j].args and ins[j].args[-1].replace(" ", "") == "%rax"):
+        j -= 1
+    if j >= 0 and ins[j].op in ("lea", "mov") and ins[j].args[-1].replace(" ", "") == "%rax":
+        m = re.match(r"^([A-Za-z_][\w.$]*)(@GOTPCREL)?\(%rip\)$", ins[j].args[0].replace(" ", ""))
+        if m and (ins[j].op == "lea") != bool(m.group(2)):
+            return m.group(1)
+    return None
+
+
 def stack_function(fn, ldcallees=None, hooked=None):
     """One effect record per instruction for tla/stack/StackDisc.tla:
        k: nop | d (rsp8 += n) | x (x87 += n) | xinit | base | reset | jmp | jcc | ijmp | ret | call (x87 += n, parity check)
@@ -427,6 +444,8 @@ def stack_function(fn, ldcallees=None, hooked=None):
                 if has_v and not in_alloca and False:
                     raise Unknown("%s: call without a V:call marker" % fn.name)
                 callee = x.args[0]
+                if callee.replace(" ", "") == "*%r10":
+                    callee = _r10_callee(ins, i) or callee      # chibicc: lea f(%rip),%rax ... mov %rax,%r10 ; call *%r10
                 if callee.startswith("*"):
                     cls = "unk"
                 else:
@@ -470,7 +489,7 @@ def stack_function(fn, ldcallees=None, hooked=None):
             rec.update(k="xinit")
         elif op in X87_NONE:
             pass
-        elif op in PLAIN or (op[:-1] in PLAIN and op[-1] in SUFFIX) or re.match(r"^mov[sz][bwl][wlq]?$", op):
+        elif op in PLAIN or (op[:-1] in PLAIN and op[-1] in SUFFIX) or re.match(r"^(mov[sz][bwl][wlq]?|set[a-z]{1,3}|cmov[a-z]{1,3})$", op):
             pass
         elif op.startswith("f"):
             raise Unknown("%s: x87 instruction with unknown stack effect: %s" % (fn.name, x.raw))
